@@ -223,6 +223,11 @@ func TestVerifC05(t *testing.T) {
 			linkAt = 4*hi + time.Duration(rr.Int63n(int64(hi)))
 			r.Count("loops_with_link_flap", 1)
 		}
+		var closeAt time.Duration
+		if k%5 == 1 {
+			closeAt = 2*hi + time.Duration(rr.Int63n(int64(hi)))
+			r.Count("loops_with_watcher_halt", 1)
+		}
 		var faultAt time.Duration
 		if k%5 == 4 {
 			faultAt = 3*hi + time.Duration(rr.Int63n(int64(hi)))
@@ -273,6 +278,14 @@ func TestVerifC05(t *testing.T) {
 			case 3:
 				go burstAt(-time.Nanosecond)
 			}
+			if closeAt > 0 {
+				// the link watcher halts (not available on this OS, or ended): its
+				// subscriptions are closed, which is not a link change — the interface
+				// goes on as before, at the same cadence
+				h.at(closeAt)
+				h.tr.Add(vfake.Event{Kind: "watch_close"})
+				close(h.watchC)
+			}
 			if linkAt > 0 {
 				// the link flaps: the interface is re-initialised and must go on
 				// requesting unsolicited RAs, by the same rules, in its new life
@@ -302,6 +315,11 @@ func TestVerifC05(t *testing.T) {
 				lastGen = e.Gen
 				ts = append(ts, e.T)
 			}
+		}
+		if closeAt > 0 && ts1 != nil {
+			r.Violation(id, "loop-wait", fmt.Sprintf("the interface was re-initialised after the link watcher halted at %v although the link never changed: the waits between unsolicited RAs are no longer the ones chosen (%d multicast RAs before, %d after)", closeAt, len(ts1), len(ts)),
+				map[string]any{"min": lo.String(), "max": hi.String()})
+			continue
 		}
 		if faultAt > 0 && ts1 == nil {
 			r.Violation(id, "stopped-requesting", fmt.Sprintf("after a scheduled RA was refused by the socket (first multicast write from %v on) the interface was never advertised on again although it was not stopped", faultAt),
